@@ -370,9 +370,25 @@ pub fn check_parse(bytes: &[u8], stats: &mut Stats, viol: &mut Vec<Violation>, s
 
 /// Encoded size of a message without its payload (and without the marker).
 pub fn overhead_of(p: &Packet) -> usize {
-    let mut c = p.clone();
-    c.payload = Vec::new();
-    c.to_bytes_unlimited().map(|b| b.len()).unwrap_or(usize::MAX / 4)
+    ref_encode(p).len() - p.payload.len() - if p.payload.is_empty() { 0 } else { 1 }
+}
+
+/// The message encoded by the reference encoder from the packet's fields
+/// (the harness never depends on the crate's encoder for its own needs).
+pub fn ref_encode(p: &Packet) -> Vec<u8> {
+    let mut opts: Vec<(u32, Vec<u8>)> = Vec::new();
+    for (n, vals) in p.options() {
+        for v in vals {
+            opts.push((*n as u32, v.clone()));
+        }
+    }
+    let mtype = match p.header.get_type() {
+        coap_lite::MessageType::Confirmable => 0,
+        coap_lite::MessageType::NonConfirmable => 1,
+        coap_lite::MessageType::Acknowledgement => 2,
+        coap_lite::MessageType::Reset => 3,
+    };
+    refparse::encode(p.header.get_version(), mtype, u8::from(p.header.code), p.header.message_id, p.get_token(), &opts, &p.payload)
 }
 
 impl Server {
@@ -748,7 +764,7 @@ impl Server {
                     self.violations.push(Violation::new("C07", "default-code", format!("prepared response code {:#x}", u8::from(m.header.code))));
                 }
                 // starts clean: encodes to exactly header + token
-                let enc = m.to_bytes_unlimited().unwrap_or_default();
+                let enc = ref_encode(m);
                 if !m.payload.is_empty() || enc.len() != 4 + token.len() {
                     self.violations.push(Violation::new("C07", "clean", format!("prepared response is not empty: encodes to {} bytes, payload {}", enc.len(), m.payload.len())));
                 }
@@ -761,7 +777,12 @@ impl Server {
     /// function of the message id, so no choice is drawn).
     fn check_c07_error_shapes(&mut self, req: &CoapRequest<Ep>, stats: &mut Stats) {
         let mid = req.message.header.message_id as usize;
-        let shapes: [fn() -> HandlingError; 7] = [
+        let shapes: [fn() -> HandlingError; 11] = [
+            // codes that are not errors are codes all the same
+            || HandlingError::with_code(ResponseType::Content, "not an error"),
+            || HandlingError::with_code(ResponseType::Created, ""),
+            || HandlingError::with_code(ResponseType::Continue, "go on"),
+            || HandlingError::with_code(ResponseType::UnKnown, "?"),
             HandlingError::not_handled,
             HandlingError::not_found,
             || HandlingError::bad_request("bad"),
